@@ -57,7 +57,7 @@ func (fs *FS) addMount(p string, mountFS hackpadfs.FS) error {
 	fs.mountMu.Lock()
 	defer fs.mountMu.Unlock()
 
-	dir, base := path.Split(p)
+	dir, base := path.Dir(p), path.Base(p)
 	parentFS, subPath := fs.Mount(dir) // get this mount point's parent mount, verify dir exists
 	f, err := parentFS.Open(path.Join(subPath, base))
 	if err != nil {
